@@ -617,9 +617,24 @@ func runSession(c sessCase, patient bool) error {
 					return err
 				}
 				want := len(st.expect)
+				stray := ""
 				ok := twice(func(d time.Duration) bool {
-					return world.waitFor(d, func() bool { return len(st.inv.data) >= want || st.inv.done })
+					return world.waitFor(d, func() bool {
+						// bytes that are not what was sent on a connection will not become right
+						// by waiting
+						for j, sj := range conns {
+							if single(j) && sj.inv != nil && !bytes.HasPrefix(sj.expect, sj.inv.data) {
+								at := diffAt(sj.inv.data, sj.expect)
+								stray = fmt.Sprintf("connection %d (%s -> %s): the service read %d bytes, of which those from offset %d on (%s) are not what its data messages carried (%d bytes sent so far)", j, sj.r, sj.l, len(sj.inv.data), at, trunc(sj.inv.data[at:]), len(sj.expect))
+								return true
+							}
+						}
+						return len(st.inv.data) >= want || st.inv.done
+					})
 				})
+				if stray != "" {
+					return failf("bytes", "%s", stray)
+				}
 				if !ok {
 					world.mu.Lock()
 					got := len(st.inv.data)
